@@ -169,6 +169,7 @@ func (s *Server) Exit(ctx context.Context) error {
 
 func (s *Server) DidOpen(ctx context.Context, params *protocol.DidOpenTextDocumentParams) error {
 	s.documents.Store(params.TextDocument.URI, params.TextDocument.Text)
+	s.payeeTemplatesCache.Delete(params.TextDocument.URI)
 	go s.publishDiagnostics(ctx, params.TextDocument.URI, params.TextDocument.Text)
 	return nil
 }
@@ -208,6 +209,7 @@ func (s *Server) ApplyContentChanges(ctx context.Context, docURI protocol.Docume
 			}
 		}
 		s.documents.Store(docURI, content)
+		s.payeeTemplatesCache.Delete(docURI)
 		if s.workspace != nil {
 			if path := uriToPath(docURI); path != "" {
 				s.workspace.UpdateFile(path, content)
